@@ -37,6 +37,15 @@ CLAIMED = {
         note="the cyclic test enters the model as an oracle bit logged from the real call; that a force field's numbers add up to the formal charge of a cell is checked on real runs for the cells reached, not by a kernel-checked table; no nucleic-acid structure offline",
         ref="DESIGN.md §4 C02",
     ),
+    "C06": dict(
+        text="Lean theorems about a model of apply_pka_values (per-residue decision tree) and of the pKa dictionary main.non_trivial builds: kernel-checked over the regenerated force-field tables, every state the tree applies "
+        "(all six force fields x seven titratable types x N/internal/C x both sides of the pKa, and the termini for all twenty residue types) is a residue of the final force-field map under its look-up name, so no residue is dropped by titration; "
+        "at most one decision per group; over any linear order of pH/pKa values the formal charge left on a group, on the termini and on any set of groups is antitone in pH; side-chain rows reach their group's key. "
+        "Full strength refuted in one respect (witness theorem + known finding): the N+/C- rows never reach the tree. Tie: EXHAUSTIVE differential execution of the real apply_pka_values over its discrete inputs (6240 cells) and of the dictionary on supplied tables. "
+        "Oracle: real runs with main.run_propka replaced by a supplied table; support decided by independent reference runs with the state pre-named in the input.",
+        note="PROPKA is an input (not verified); residue-level support in the kernel theorem, atom-level support by the oracle on real runs; model hand-written (the DESIGN's AST translator was replaced by the exhaustive tie)",
+        ref="DESIGN.md §4 C06",
+    ),
     "C07": dict(
         text="Lean theorems about a model of read_pdb + Biomolecule.__init__ + residue constructors + drop_water: no ATOM/HETATM line skipped whatever surrounds it, "
         "trailing-column cuts parse identically, grouping is a permutation of the first model's atoms for every placement of TER/END/MODEL/other records, "
